@@ -4,6 +4,8 @@ import (
 	"fmt"
 	"go/token"
 	"go/types"
+	"strconv"
+	"strings"
 	"time"
 
 	"golang.org/x/tools/go/ssa"
@@ -383,4 +385,135 @@ func (w *World) opaqueMethod(op *Opaque, name string) Value {
 		}
 	}
 	return nil
+}
+
+// ---- viper model: a flat key/value store set by viper.Set / viper.SetDefault from the harness --------
+
+func registerViperIntrinsics(reg func(string, intrinsicFn)) {
+	const vp = "github.com/spf13/viper."
+	store := func(w *World) map[string]Value {
+		m, ok := w.userData["viper"].(map[string]Value)
+		if !ok {
+			m = map[string]Value{}
+			w.userData["viper"] = m
+		}
+		return m
+	}
+	get := func(w *World, key Value) (Value, bool) {
+		k := concStr(w, key, "viper key")
+		v, ok := store(w)[strings.ToLower(k)]
+		if !ok {
+			return nil, false
+		}
+		if iv, isI := v.(Iface); isI {
+			if iv.t == nil {
+				return nil, false
+			}
+			return iv.v, true
+		}
+		return v, true
+	}
+	set := func(w *World, th *Thread, fn *ssa.Function, args []Value) Value {
+		store(w)[strings.ToLower(concStr(w, args[0], "viper key"))] = args[1]
+		return nil
+	}
+	reg(vp+"Set", set)
+	reg(vp+"SetDefault", func(w *World, th *Thread, fn *ssa.Function, args []Value) Value {
+		k := strings.ToLower(concStr(w, args[0], "viper key"))
+		if _, ok := store(w)[k]; !ok {
+			store(w)[k] = args[1]
+		}
+		return nil
+	})
+	reg(vp+"IsSet", func(w *World, th *Thread, fn *ssa.Function, args []Value) Value {
+		_, ok := get(w, args[0])
+		return ok
+	})
+	reg(vp+"Get", func(w *World, th *Thread, fn *ssa.Function, args []Value) Value {
+		k := strings.ToLower(concStr(w, args[0], "viper key"))
+		if v, ok := store(w)[k]; ok {
+			return v
+		}
+		return Iface{}
+	})
+	reg(vp+"GetBool", func(w *World, th *Thread, fn *ssa.Function, args []Value) Value {
+		v, ok := get(w, args[0])
+		if !ok {
+			return false
+		}
+		switch x := v.(type) {
+		case bool, *Term:
+			return x
+		case string:
+			return x == "true" || x == "1"
+		}
+		return false
+	})
+	reg(vp+"GetString", func(w *World, th *Thread, fn *ssa.Function, args []Value) Value {
+		v, ok := get(w, args[0])
+		if !ok {
+			return ""
+		}
+		switch x := v.(type) {
+		case string, *Term, BStr:
+			return x
+		case int64:
+			return strconv.FormatInt(x, 10)
+		}
+		return ""
+	})
+	geti := func(w *World, th *Thread, fn *ssa.Function, args []Value) Value {
+		v, ok := get(w, args[0])
+		if !ok {
+			return int64(0)
+		}
+		switch x := v.(type) {
+		case int64, *Term:
+			return x
+		case string:
+			n, _ := strconv.ParseInt(x, 10, 64)
+			return n
+		}
+		return int64(0)
+	}
+	for _, n := range []string{"GetInt", "GetInt64", "GetInt32", "GetUint", "GetUint32", "GetUint64"} {
+		reg(vp+n, geti)
+	}
+	reg(vp+"GetDuration", func(w *World, th *Thread, fn *ssa.Function, args []Value) Value {
+		v, ok := get(w, args[0])
+		if !ok {
+			return int64(0)
+		}
+		switch x := v.(type) {
+		case int64, *Term:
+			return x
+		case string:
+			d, _ := time.ParseDuration(x)
+			return int64(d)
+		}
+		return int64(0)
+	})
+	reg(vp+"GetFloat64", func(w *World, th *Thread, fn *ssa.Function, args []Value) Value {
+		v, ok := get(w, args[0])
+		if !ok {
+			return float64(0)
+		}
+		switch x := v.(type) {
+		case float64, *Term:
+			return x
+		case int64:
+			return float64(x)
+		}
+		return float64(0)
+	})
+	reg(vp+"GetStringSlice", func(w *World, th *Thread, fn *ssa.Function, args []Value) Value {
+		v, ok := get(w, args[0])
+		if !ok {
+			return Slice{nil: true}
+		}
+		if sl, ok := v.(Slice); ok {
+			return sl
+		}
+		return Slice{nil: true}
+	})
 }
